@@ -239,3 +239,22 @@ Definition decode_sites_check (sites : list (text * text * text)) : bool :=
 Example shared_decoder_fails :
   decode_sites_check (([115; 101; 114; 118; 101; 114; 46; 112; 121], [112; 97; 114; 115; 101; 95; 99; 111; 109; 109; 97; 110; 100], [115; 101; 108; 102; 46; 95; 100; 101; 99; 111; 100; 101; 95; 108; 105; 110; 101; 40; 108; 105; 110; 101; 41]) :: tl decode_sites_modelled) = false.
 Proof. vm_compute. reflexivity. Qed.
+
+(* ---- what a control line can make the dispatcher run ----
+   Model/Parsers.v gives a command an effect on ITS OWN session only (`handle : S -> text -> text -> option S`; C19_server_line_contained:
+   every other session's record is untouched).  That rests on the set of callables a peer can reach being the command table.  In the source:
+   the only dynamically determined callee in Server.dispatcher -- a local that is called, resolved through every binding it has, or a
+   non-attribute callee expression, or a reflective primitive (getattr / eval / globals ...) -- is `self.commands_mapping.get(<verb>)`
+   (locals alpha-renamed by the translator: L0).  A fall-back such as `getattr(self, verb)` lets an unauthenticated peer call public
+   Server methods (greeting, start, ...) whose effects are server-wide: a second text, the check is false. *)
+Definition dispatch_callees_modelled : list text :=
+  [[115; 101; 108; 102; 46; 99; 111; 109; 109; 97; 110; 100; 115; 95; 109; 97; 112; 112; 105; 110; 103; 46; 103; 101; 116; 40; 76; 48; 41]].
+
+Definition dispatch_callees_check (cs : list text) : bool := list_eqb text_eqb cs dispatch_callees_modelled.
+
+Example reflective_fallback_fails :
+  dispatch_callees_check (dispatch_callees_modelled ++ [[103; 101; 116; 97; 116; 116; 114; 40; 115; 101; 108; 102; 44; 32; 76; 48; 44; 32; 78; 111; 110; 101; 41]]) = false.
+Proof. vm_compute. reflexivity. Qed.
+
+Example no_table_lookup_fails : dispatch_callees_check [] = false.
+Proof. vm_compute. reflexivity. Qed.
